@@ -27,8 +27,52 @@ pub fn verif_serialize_tx(buffer: &mut Vec<u8>, tx: &Transaction)
 // number of transactions serialized into the slice buffer so far (after the 8-byte count prefix, which is written last)
 pub uninterp spec fn spec_tx_items(buffer: Seq<u8>) -> nat;
 
+// wincode (fixint) encoding of the slice's parent: one tag byte, plus slot (8) and block hash (32) when present.  TRUSTED.
+pub open spec fn spec_parent_len(p: Option<BlockId>) -> nat { if p is Some { 41 } else { 1 } }
+// `wincode::serialized_size(&p).expect(..) as usize` (R8)
+#[verifier::external_body]
+pub fn verif_parent_encoded_len(p: &Option<BlockId>) -> (r: usize)
+    ensures r == spec_parent_len(*p)
+{ unimplemented!() }
+// serialized size of a slice payload: parent, 8-byte length prefix of the data, data
+pub open spec fn spec_payload_len(p: SlicePayload) -> nat { spec_parent_len(p.parent) + 8 + p.data@.len() }
+/*@ extract src/shredder.rs :: const MAX_DATA_PER_SHRED
+@*/
+/*@ extract src/shredder.rs :: const DATA_SHREDS
+@*/
+/*@ extract src/shredder.rs :: const MAX_DATA_PER_SLICE_AFTER_PADDING
+@*/
+/*@ extract src/shredder.rs :: const MAX_DATA_PER_SLICE
+@*/
+// Slot::genesis() / GENESIS_BLOCK_HASH as used for a placeholder parent (values irrelevant here)
+impl Slot { pub fn genesis() -> (r: Slot) { Slot(0) } }
+/*@ extract src/crypto/merkle.rs :: const GENESIS_BLOCK_HASH
+prefix #[verifier::external_body]
+ensures
+        true,
+@*/
+
 pub mod code {
 use super::*;
+
+// The space computation at the head of produce_slice_payload, as a function of the parent the slice starts with.
+/*@ extract-stmts src/consensus/block_producer.rs :: fn produce_slice_payload
+props C10
+from `const _: () = assert!(MAX_DATA_PER_SLICE >= MAX_TRANSACTION_SIZE + 8 + 8);`
+to `let buffer_space = MAX_DATA_PER_SLICE - parent_encoded_len - 8;`
+drop `const _: () = assert!(MAX_DATA_PER_SLICE >= MAX_TRANSACTION_SIZE + 8 + 8);`
+wrap fn slice_space(parent: Option<BlockId>) -> (r: usize)
+tail buffer_space
+rewrite[R8] `wincode::serialized_size(&VANY) .expect("computing serialized size of parent should not fail") as usize` => `verif_parent_encoded_len(&VANY)`
+ensures
+        // the slice as produced fits: parent + length prefix + data <= MAX_DATA_PER_SLICE
+        r + 8 + spec_parent_len(parent) <= MAX_DATA_PER_SLICE,
+        // [C10.room_for_a_parent_is_always_reserved] ... and it still fits when optimistic handover later puts a parent on a
+        // slice that was started without one (apply_parent_ready): the space for a parent is reserved in any case
+        r + 8 + 41 <= MAX_DATA_PER_SLICE,
+        // room for the first transaction (the loop invariant of slice_step holds initially: 8 bytes used)
+        8 + MAX_TRANSACTION_SIZE + 8 <= r,
+@*/
 
 // The statements of the receive loop that run for each received transaction, as a function: `true` = the loop breaks.
 /*@ extract-stmts src/consensus/block_producer.rs :: fn produce_slice_payload
@@ -75,6 +119,10 @@ ensures
         // obligation before fix 1fefaba)
         received is Err ==> final(payload).parent == old(payload).parent,
         final(payload).data == old(payload).data,
+        // [C10.slice_stays_within_the_limit_after_a_parent_switch] given what produce_slice_payload guarantees about the data
+        // (slice_space above), the payload still fits a slice after the switch - else shredding fails and
+        // `.expect("shredding of valid slice should never fail")` panics the producer
+        old(payload).data@.len() + 8 + 41 <= MAX_DATA_PER_SLICE ==> spec_payload_len(*final(payload)) <= MAX_DATA_PER_SLICE,
 @*/
 
 // Canary: the same statements under a false contract (claims the slice never fills up); MUST fail.
